@@ -27,6 +27,15 @@ package shard
 //    blobs on both sides of the filler runs (head / tail / random cuts), so that the
 //    rebuild crosses batch boundaries between a tombstone or lock and its target's parts.
 //    The oracle is the same; every filler must come out available.
+// 5. Leaky histories: in some histories (own random stream, more locks) the best-effort
+//    clean-up delete that Shard.Put performs after a refused metabase put fails (fault
+//    injected in the blob storage of the incremental shard), so the blob of the refused
+//    object stays: a tombstone next to a live lock of the same target, a lock next to a
+//    tombstone, a part of an already removed root.  For a target that has both a stored
+//    tombstone and a stored live lock the statement does not say which one prevails, but
+//    the statuses must follow from ONE of the two readings for the target and all its
+//    stored parts together: either the lock holds (target locked, nothing of it removed)
+//    or the tombstone does (target and every part removed, GC reclaims them).
 
 import (
 	"encoding/json"
@@ -252,6 +261,24 @@ func (s *vf18Store) IterateAddresses(f func(oid.Address) error, _ bool) error {
 	return nil
 }
 
+// vf18LeakyStore is the blob storage of the incremental shard: the real FSTree whose
+// Delete can be told to fail.  Shard.Put deletes the blob it has just written when the
+// metabase refuses the object; that clean-up is best effort (its error is only logged), so
+// a failing delete (or a stop right before it) leaves the blob of a refused object behind.
+type vf18LeakyStore struct {
+	*fstree.FSTree
+	failDelete atomic.Bool
+	failed     atomic.Int64
+}
+
+func (s *vf18LeakyStore) Delete(a oid.Address) error {
+	if s.failDelete.Load() {
+		s.failed.Add(1)
+		return errors.New("vf18: injected failure of the clean-up delete")
+	}
+	return s.FSTree.Delete(a)
+}
+
 // ---------------------------------------------------------------------------------
 // universe
 
@@ -302,6 +329,7 @@ type vf18Case struct {
 	nviol  int
 	big    bool // more fillers than one rebuild batch
 	nfill  int
+	leak   bool // refused puts may leave their blob behind; more locks are planned
 }
 
 func (x *vf18Case) mk(size int, exp int64) *object.Object {
@@ -339,6 +367,9 @@ func (x *vf18Case) build(budget int) {
 		// associated objects: tombstones never expire before the final epoch (so that
 		// "removed by tombstone" is a fact of the stored set), locks may
 		assoc := func(t *vf18Obj, label string, lockP, tombP float64) {
+			if x.leak {
+				lockP, tombP = 0.6, 0.85
+			}
 			if left > len(grp) && rng.Float64() < lockP {
 				exp := x.expOrNone(0.6, 0, int(x.final)+3)
 				o := x.mk(0, exp)
@@ -627,15 +658,45 @@ func vf18NewShard(bs common.Storage, metaPath string, ep *vf18Epoch) (*Shard, er
 // status observation and reference status
 
 type vf18Status struct {
-	base   string // available, removed, expired, notfound, virtual, error:...
-	locked bool
+	base    string // available, removed, expired, notfound, virtual, error:...
+	locked  bool
+	garbage bool // listed by DB.GetGarbage: marked for removal, payload to be reclaimed by GC
+}
+
+// eff reads "not found, but listed as garbage" as removed: the object has been marked for
+// removal and Exists merely answers with another error class (it does so for a part that
+// is linked to its removed root through a sibling only).
+func (s vf18Status) eff() string {
+	if s.base == "notfound" && s.garbage {
+		return "removed"
+	}
+	return s.base
+}
+
+// vf18Garbage returns what the metabase lists as garbage.
+func vf18Garbage(db *meta.DB) map[oid.Address]bool {
+	res := map[oid.Address]bool{}
+	bins, err := db.GetGarbage(1 << 20)
+	if err != nil {
+		return res
+	}
+	for _, b := range bins {
+		for _, id := range b.Objects {
+			res[oid.NewAddress(b.Container, id)] = true
+		}
+	}
+	return res
 }
 
 func (s vf18Status) String() string {
-	if s.locked {
-		return s.base + "+locked"
+	res := s.base
+	if s.base == "notfound" && s.garbage {
+		res += "(garbage)"
 	}
-	return s.base
+	if s.locked {
+		res += "+locked"
+	}
+	return res
 }
 
 func vf18Observe(db *meta.DB, a oid.Address) vf18Status {
@@ -674,23 +735,34 @@ type vf18Want struct {
 	why         string
 }
 
+func (x *vf18Case) tombed(stored map[oid.Address]bool, a oid.Address) bool {
+	for _, t := range x.objs {
+		if t.kind == vf18Tomb && t.target == a && stored[t.addr] {
+			return true
+		}
+	}
+	return false
+}
+
+func (x *vf18Case) liveLock(stored map[oid.Address]bool, a oid.Address) bool {
+	for _, l := range x.objs {
+		if l.kind == vf18Lock && l.target == a && stored[l.addr] && (l.exp < 0 || x.final <= uint64(l.exp)) {
+			return true
+		}
+	}
+	return false
+}
+
 func (x *vf18Case) reference(stored map[oid.Address]bool, o *vf18Obj) vf18Want {
-	tombed := func(a oid.Address) bool {
-		for _, t := range x.objs {
-			if t.kind == vf18Tomb && t.target == a && stored[t.addr] {
-				return true
-			}
-		}
-		return false
-	}
-	liveLock := func(a oid.Address) bool {
-		for _, l := range x.objs {
-			if l.kind == vf18Lock && l.target == a && stored[l.addr] && (l.exp < 0 || x.final <= uint64(l.exp)) {
-				return true
-			}
-		}
-		return false
-	}
+	return x.referenceWithout(stored, o, oid.Address{}, oid.Address{})
+}
+
+// referenceWithout is the reference status under one reading of a tombstone-vs-live-lock
+// conflict: the tombstones of noTomb (the lock holds) or the locks of noLock (the
+// tombstone holds) are taken as void.  Zero addresses: nothing is void.
+func (x *vf18Case) referenceWithout(stored map[oid.Address]bool, o *vf18Obj, noTomb, noLock oid.Address) vf18Want {
+	tombed := func(a oid.Address) bool { return a != noTomb && x.tombed(stored, a) }
+	liveLock := func(a oid.Address) bool { return a != noLock && x.liveLock(stored, a) }
 	hasRoot := !o.root.Object().IsZero() && x.rootKnown(stored, o)
 	w := vf18Want{constrained: true}
 	removed := tombed(o.addr) || (hasRoot && tombed(o.root))
@@ -700,6 +772,11 @@ func (x *vf18Case) reference(stored map[oid.Address]bool, o *vf18Obj) vf18Want {
 	switch {
 	case removed && (locked || rootLocked):
 		w.constrained, w.why = false, "tombstone next to a live lock"
+	case o.kind == vf18Tomb && liveLock(o.target):
+		// the tombstone of an object under a live lock may have been refused
+		w.constrained, w.why = false, "tombstone of an object under a live lock"
+	case o.kind == vf18Lock && tombed(o.target) && (o.exp < 0 || x.final <= uint64(o.exp)):
+		w.constrained, w.why = false, "live lock of an object that has a tombstone"
 	case removed:
 		w.base, w.why = "removed", "a stored tombstone targets it or its root"
 		w.lockKnown = false
@@ -797,7 +874,7 @@ func (x *vf18Case) violation(key, what string, extra map[string]any) {
 	if x.nviol > 8 {
 		return
 	}
-	rep := map[string]any{"case_index": x.caseNo, "big_set": x.big, "final_epoch": x.final, "history": x.ops, "universe": x.describe()}
+	rep := map[string]any{"case_index": x.caseNo, "big_set": x.big, "leaky_case": x.leak && !x.big, "final_epoch": x.final, "history": x.ops, "universe": x.describe()}
 	for k, v := range extra {
 		rep[k] = v
 	}
@@ -848,9 +925,21 @@ func vf18NextPerm(p []int) bool {
 	return true
 }
 
+// vf18Conflict is a target that has both a stored tombstone and a stored live lock, with
+// the watched addresses whose status depends on which of the two prevails (the target
+// itself and the stored parts the set links to it) and their reference status under either
+// reading.
+type vf18Conflict struct {
+	target  *vf18Obj
+	members []*vf18Obj
+	lockW   map[oid.Address]vf18Want // the lock holds: tombstones of the target are void
+	tombW   map[oid.Address]vf18Want // the tombstone holds: locks of the target are void
+}
+
 // vf18RunCase runs one stored set.  big > 0: a big set (own random stream) rebuilt in
-// that many enumeration orders.
-func vf18RunCase(r *verifkit.Run, caseNo, budget, maxFull, samples, big int) {
+// that many enumeration orders.  leak: a leaky history (own random stream for small sets;
+// every fourth big set is leaky by itself).
+func vf18RunCase(r *verifkit.Run, caseNo, budget, maxFull, samples, big int, leak bool) {
 	dir, err := os.MkdirTemp("", "vf18-")
 	if err != nil {
 		r.Inconclusive("mkdtemp: " + err.Error())
@@ -859,11 +948,16 @@ func vf18RunCase(r *verifkit.Run, caseNo, budget, maxFull, samples, big int) {
 	defer os.RemoveAll(dir)
 	var x *vf18Case
 	if big == 0 {
-		x = &vf18Case{r: r, caseNo: caseNo, rng: r.Rand("case", caseNo), byAddr: map[oid.Address]*vf18Obj{}}
+		stream := "case"
+		if leak {
+			stream = "leakycase"
+		}
+		x = &vf18Case{r: r, caseNo: caseNo, rng: r.Rand(stream, caseNo), byAddr: map[oid.Address]*vf18Obj{}, leak: leak}
 		x.build(budget)
 	} else {
+		leak = caseNo%4 == 2
 		for att := 0; ; att++ {
-			x = &vf18Case{r: r, caseNo: caseNo, rng: r.Rand("bigcase", caseNo*1000+att), byAddr: map[oid.Address]*vf18Obj{}}
+			x = &vf18Case{r: r, caseNo: caseNo, rng: r.Rand("bigcase", caseNo*1000+att), byAddr: map[oid.Address]*vf18Obj{}, leak: leak}
 			x.build(budget)
 			if x.worthBig() || att == 500 {
 				break
@@ -876,7 +970,12 @@ func vf18RunCase(r *verifkit.Run, caseNo, budget, maxFull, samples, big int) {
 	// 1. incremental construction on a real shard
 	ep := &vf18Epoch{}
 	fs := fstree.New(fstree.WithPath(filepath.Join(dir, "fstree")), fstree.WithDepth(1), fstree.WithNoSync(true))
-	shA, err := vf18NewShard(fs, filepath.Join(dir, "metaA"), ep)
+	leaky := &vf18LeakyStore{FSTree: fs}
+	leakRng := r.Rand("leak", caseNo)
+	if x.leak {
+		r.Count("leaky_histories", 1)
+	}
+	shA, err := vf18NewShard(leaky, filepath.Join(dir, "metaA"), ep)
 	if err != nil {
 		r.Inconclusive("incremental shard: " + err.Error())
 		return
@@ -887,7 +986,11 @@ func vf18RunCase(r *verifkit.Run, caseNo, budget, maxFull, samples, big int) {
 			x.ops = append(x.ops, fmt.Sprintf("epoch=%d", st.epoch))
 			continue
 		}
+		// leaky history: the clean-up delete after a refused put fails three times of four
+		leaky.failDelete.Store(x.leak && !st.put.filler && leakRng.IntN(4) != 0)
+		nFailed := leaky.failed.Load()
 		err := shA.Put(st.put.obj, nil)
+		leaky.failDelete.Store(false)
 		if st.put.filler {
 			if err != nil {
 				r.Inconclusive(fmt.Sprintf("big case %d: filler %s was rejected: %v", caseNo, st.put.name, err))
@@ -905,6 +1008,11 @@ func vf18RunCase(r *verifkit.Run, caseNo, budget, maxFull, samples, big int) {
 		if err != nil {
 			res = "rejected"
 			r.Count("history_puts_rejected", 1)
+			if leaky.failed.Load() > nFailed {
+				res = "rejected, clean-up delete failed: blob stays"
+				r.Count("history_puts_rejected_blob_left", 1)
+				r.Seen("kinds_of_refused_objects_whose_blob_stayed", vf18KindName[st.put.kind])
+			}
 		} else {
 			r.Count("history_puts_ok", 1)
 		}
@@ -934,8 +1042,11 @@ func vf18RunCase(r *verifkit.Run, caseNo, budget, maxFull, samples, big int) {
 		}
 	}
 	incr := map[oid.Address]vf18Status{}
+	garbageA := vf18Garbage(shA.metaBase)
 	for _, a := range watch {
-		incr[a] = vf18Observe(shA.metaBase, a)
+		st := vf18Observe(shA.metaBase, a)
+		st.garbage = garbageA[a]
+		incr[a] = st
 	}
 	// detach the FSTree from the incremental shard without closing it
 	_ = shA.metaBase.Close()
@@ -944,14 +1055,32 @@ func vf18RunCase(r *verifkit.Run, caseNo, budget, maxFull, samples, big int) {
 
 	want := map[oid.Address]vf18Want{}
 	kinds := map[string]bool{}
-	nRemoved := 0
 	for _, a := range watch {
 		want[a] = x.reference(stored, x.byAddr[a])
-		if want[a].constrained && want[a].base == "removed" && stored[a] {
-			nRemoved++
-		}
 		kinds[vf18KindName[x.byAddr[a].kind]] = true
 		r.Seen("reference_statuses_seen", want[a].base)
+	}
+	// targets with both a stored tombstone and a stored live lock
+	var conflicts []*vf18Conflict
+	for _, t := range x.objs {
+		if t.filler || !x.tombed(stored, t.addr) || !x.liveLock(stored, t.addr) {
+			continue
+		}
+		c := &vf18Conflict{target: t, lockW: map[oid.Address]vf18Want{}, tombW: map[oid.Address]vf18Want{}}
+		for _, a := range watch {
+			m := x.byAddr[a]
+			if m != t && !(m.root == t.addr && x.rootKnown(stored, m)) {
+				continue
+			}
+			c.members = append(c.members, m)
+			c.lockW[a] = x.referenceWithout(stored, m, t.addr, oid.Address{})
+			c.tombW[a] = x.referenceWithout(stored, m, oid.Address{}, t.addr)
+		}
+		if len(c.members) > 0 {
+			conflicts = append(conflicts, c)
+			r.Count("stored_sets_with_tombstone_next_to_live_lock", 1)
+			r.Seen("tombstone_vs_live_lock_target_kinds", vf18KindName[t.kind])
+		}
 	}
 	if len(set) < 2 {
 		r.Count("cases_with_trivial_set", 1)
@@ -1070,9 +1199,15 @@ func vf18RunCase(r *verifkit.Run, caseNo, budget, maxFull, samples, big int) {
 			r.Inconclusive(fmt.Sprintf("case %d: the imposed order was not replayed (%d of %d blobs handed over)", caseNo, len(w.handed), len(order)))
 		}
 		var sig strings.Builder
+		seen := map[oid.Address]vf18Status{}
+		garbageB := vf18Garbage(shB.metaBase)
 		for _, a := range watch {
 			o := x.byAddr[a]
 			got := vf18Observe(shB.metaBase, a)
+			got.garbage = garbageB[a]
+			if !o.filler {
+				seen[a] = got
+			}
 			if !o.filler || got.base != "available" || got.locked {
 				fmt.Fprintf(&sig, "%s=%s;", o.name, got)
 			}
@@ -1102,14 +1237,14 @@ func vf18RunCase(r *verifkit.Run, caseNo, budget, maxFull, samples, big int) {
 				continue
 			}
 			r.Count("comparisons_with_reference", 1)
-			if wa.norm(got.base) != wa.base && got.base != incr[a].base {
+			if wa.norm(got.eff()) != wa.base && got.base != incr[a].base {
 				key := fmt.Sprintf("status-after-resync|%s|want=%s|got=%s|%s", vf18KindName[o.kind], wa.base, got.base, x.trigger(order, o)) + sfx
 				if !reported[key+o.name] {
 					reported[key+o.name] = true
 					x.violation(key, fmt.Sprintf("after a rebuild in order %v, %s (%s) is %s; the stored set says %s (%s), incremental construction says %s",
 						x.names(order), o.name, vf18KindName[o.kind], got, wa.base, wa.why, incr[a]), info)
 				}
-			} else if wa.norm(got.base) != wa.base {
+			} else if wa.norm(got.eff()) != wa.base {
 				r.Count("resync_agrees_with_incremental_not_reference", 1)
 			} else if got.base != incr[a].base {
 				r.Count("resync_agrees_with_reference_not_incremental", 1)
@@ -1125,14 +1260,70 @@ func vf18RunCase(r *verifkit.Run, caseNo, budget, maxFull, samples, big int) {
 		}
 		sigs[sig.String()] = true
 
+		// tombstone next to a live lock of the same target: the statement does not say
+		// which prevails, but one of them must - for the target and all its stored parts
+		// alike
+		reclaim := map[oid.Address]bool{}
+		for _, c := range conflicts {
+			lockHolds, tombHolds := true, true
+			var parts []string
+			tgt := "-"
+			for _, m := range c.members {
+				got := seen[m.addr]
+				if lw := c.lockW[m.addr]; (lw.constrained && lw.norm(got.eff()) != lw.base) || (m == c.target && !got.locked) {
+					lockHolds = false
+				}
+				if tw := c.tombW[m.addr]; !tw.constrained || tw.base != "removed" || tw.norm(got.eff()) != tw.base {
+					tombHolds = false
+				}
+				if m == c.target {
+					tgt = got.String()
+				} else if !slices.Contains(parts, got.base) {
+					parts = append(parts, got.base)
+				}
+			}
+			sort.Strings(parts)
+			r.Count("tombstone_vs_live_lock_checks", 1)
+			if len(c.members) > 1 {
+				r.Count("tombstone_vs_live_lock_checks_of_split_or_ec_objects", 1)
+			}
+			switch {
+			case lockHolds:
+				r.Count("tombstone_vs_live_lock_lock_holds", 1)
+			case tombHolds:
+				r.Count("tombstone_vs_live_lock_tombstone_holds", 1)
+				for _, m := range c.members {
+					if stored[m.addr] {
+						reclaim[m.addr] = true
+					}
+				}
+			default:
+				key := fmt.Sprintf("tombstone-vs-live-lock-incoherent|%s|target=%s|parts=%s", vf18KindName[c.target.kind], tgt, strings.Join(parts, ",")) + sfx
+				if !reported[key+c.target.name] {
+					reported[key+c.target.name] = true
+					var det []string
+					for _, m := range c.members {
+						det = append(det, fmt.Sprintf("%s=%s (lock holds: %s, tombstone holds: %s; incremental %s)", m.name, seen[m.addr], c.lockW[m.addr].base, c.tombW[m.addr].base, incr[m.addr]))
+					}
+					x.violation(key, fmt.Sprintf("after a rebuild in order %v, %s has a stored tombstone and a stored live lock, and the statuses of it and its stored parts follow neither from the lock holding (target locked, nothing removed) nor from the tombstone holding (everything removed): %s",
+						x.names(order), c.target.name, strings.Join(det, "; ")), info)
+				}
+			}
+		}
+
 		// 3. garbage collection must be able to reclaim every removed object's blob
-		if nRemoved > 0 {
+		for _, a := range set {
+			if wa := want[a]; wa.constrained && wa.base == "removed" {
+				reclaim[a] = true
+			}
+		}
+		if len(reclaim) > 0 {
 			// fillers are never garbage: the bound counts the other blobs only
 			passes := 0
 			for ; passes < len(set)-x.nfill+2; passes++ {
 				left := 0
-				for _, a := range set {
-					if wa := want[a]; wa.constrained && wa.base == "removed" && w.has(a) {
+				for a := range reclaim {
+					if w.has(a) {
 						left++
 					}
 				}
@@ -1144,8 +1335,7 @@ func vf18RunCase(r *verifkit.Run, caseNo, budget, maxFull, samples, big int) {
 			}
 			r.Max("max_gc_passes_needed", int64(passes))
 			for _, a := range set {
-				wa := want[a]
-				if !wa.constrained || wa.base != "removed" {
+				if !reclaim[a] {
 					continue
 				}
 				r.Count("gc_checks_removed_objects", 1)
@@ -1209,21 +1399,23 @@ func TestVerif_C18(t *testing.T) {
 	cases := r.Pick(300, 1500)
 	budget, maxFull, samples := r.Pick(6, 7), r.Pick(5, 6), r.Pick(60, 300)
 	bigCases, bigOrders := r.Pick(4, 24), r.Pick(8, 20)
-	r.SetRule(fmt.Sprintf("%d big sets: a history of the same kind plus plain filler objects (%d..%d of them, more than the %d blobs one rebuild batch indexes; every sixth set above two batches; every sixth sized so that the last regular blob sits exactly at / next to a batch end), each rebuilt in %d enumeration orders that insert the interesting blobs into the shuffled filler body (by address, reversed, tombstones+locks before all fillers and the rest after, the inverse, then seeded head-or-tail / uniform / clustered placements), same status + GC oracle, every filler must be available. Plus ", bigCases, vf18BatchHint+50, 2*vf18BatchHint+650, vf18BatchHint, bigOrders) + fmt.Sprintf("%d seeded histories (puts of regular objects, V2 split children + link, EC parts, tombstones and locks with/without expiration, epoch advances; mostly upload order, sometimes shuffled) of at most %d objects on a real shard; the blobs it keeps form the stored set. One evaluation = one real DB.ResyncFromBlobstor over one enumeration order of that set imposed by a common.Storage wrapper (all permutations for sets of <= %d blobs, native + reverse + %d seeded permutations above), followed by status reads of every stored object / virtual root and up to |S|+2 real GC passes. distinct = stored sets (size, kinds, reference statuses) of >= 2 blobs containing a tombstone or lock", cases, budget, maxFull, samples))
+	leakyCases := r.Pick(120, 600)
+	r.SetRule(fmt.Sprintf("%d leaky histories (same generator, own random stream, more locks; the best-effort clean-up delete of Shard.Put after a refused metabase put is made to fail three times of four, so blobs of refused tombstones / locks / parts stay in the stored set; every fourth big set is leaky too): a target with a stored tombstone AND a stored live lock must come out, together with all its stored parts, either as 'the lock holds' or as 'the tombstone holds' (then GC must reclaim it). Plus ", leakyCases)+fmt.Sprintf("%d big sets: a history of the same kind plus plain filler objects (%d..%d of them, more than the %d blobs one rebuild batch indexes; every sixth set above two batches; every sixth sized so that the last regular blob sits exactly at / next to a batch end), each rebuilt in %d enumeration orders that insert the interesting blobs into the shuffled filler body (by address, reversed, tombstones+locks before all fillers and the rest after, the inverse, then seeded head-or-tail / uniform / clustered placements), same status + GC oracle, every filler must be available. Plus ", bigCases, vf18BatchHint+50, 2*vf18BatchHint+650, vf18BatchHint, bigOrders) + fmt.Sprintf("%d seeded histories (puts of regular objects, V2 split children + link, EC parts, tombstones and locks with/without expiration, epoch advances; mostly upload order, sometimes shuffled) of at most %d objects on a real shard; the blobs it keeps form the stored set. One evaluation = one real DB.ResyncFromBlobstor over one enumeration order of that set imposed by a common.Storage wrapper (all permutations for sets of <= %d blobs, native + reverse + %d seeded permutations above), followed by status reads of every stored object / virtual root and up to |S|+2 real GC passes. distinct = stored sets (size, kinds, reference statuses) of >= 2 blobs containing a tombstone or lock", cases, budget, maxFull, samples))
 	r.Assume("status = class of DB.Exists (available / removed / expired / not found / virtual parent) plus DB.IsLocked; reference: removed iff a stored tombstone targets the object or its root, expired iff past expiration without a live lock, else available")
-	r.Assume("tombstones do not expire before the final epoch; a tombstone next to a live lock (cannot arise from accepted puts) is not constrained; GC passes are the shard's removeGarbage body driven synchronously, expiry handling is left out")
+	r.Assume("tombstones do not expire before the final epoch; a tombstone next to a live lock of the same target (arises when the blob of a refused put stays) may resolve either way, but in the same way for the target and all its stored parts; the status of the losing tombstone / lock object itself is not constrained; GC passes are the shard's removeGarbage body driven synchronously, expiry handling is left out")
 	if p := os.Getenv("VERIF_REPLAY"); p != "" {
 		var doc struct {
 			Case struct {
 				CaseIndex int  `json:"case_index"`
 				BigSet    bool `json:"big_set"`
+				Leaky     bool `json:"leaky_case"`
 			} `json:"case"`
 		}
 		if b, err := os.ReadFile(p); err == nil && json.Unmarshal(b, &doc) == nil {
 			if doc.Case.BigSet {
-				vf18RunCase(r, doc.Case.CaseIndex, budget, maxFull, samples, bigOrders)
+				vf18RunCase(r, doc.Case.CaseIndex, budget, maxFull, samples, bigOrders, false)
 			} else {
-				vf18RunCase(r, doc.Case.CaseIndex, budget, maxFull, samples, 0)
+				vf18RunCase(r, doc.Case.CaseIndex, budget, maxFull, samples, 0, doc.Case.Leaky)
 			}
 			r.Distinct("replay-a")
 			r.Distinct("replay-b")
@@ -1231,30 +1423,41 @@ func TestVerif_C18(t *testing.T) {
 		}
 	}
 	var wg sync.WaitGroup
-	ch := make(chan int)
+	type job struct {
+		idx   int
+		big   bool
+		leaky bool
+	}
+	ch := make(chan job)
 	for range 4 {
 		wg.Add(1)
 		go func() {
 			defer wg.Done()
 			for c := range ch {
-				if c < 0 {
-					vf18RunCase(r, -c-1, budget, maxFull, samples, bigOrders)
+				if c.big {
+					vf18RunCase(r, c.idx, budget, maxFull, samples, bigOrders, false)
 				} else {
-					vf18RunCase(r, c, budget, maxFull, samples, 0)
+					vf18RunCase(r, c.idx, budget, maxFull, samples, 0, c.leaky)
 				}
 			}
 		}()
 	}
 	for c := range bigCases { // the expensive ones first
-		ch <- -c - 1
+		ch <- job{idx: c, big: true}
+	}
+	for c := range leakyCases {
+		ch <- job{idx: c, leaky: true}
 	}
 	for c := range cases {
-		ch <- c
+		ch <- job{idx: c}
 	}
 	close(ch)
 	wg.Wait()
 	if r.Counter("big_orders_with_tombstone_or_lock_read_a_batch_before_its_target") == 0 || r.Counter("filler_status_checks") == 0 {
 		r.Inconclusive("no big set was rebuilt with a tombstone or lock read at least one batch before its target")
+	}
+	if r.Counter("tombstone_vs_live_lock_checks_of_split_or_ec_objects") == 0 || r.Counter("history_puts_rejected_blob_left") == 0 {
+		r.Inconclusive("no rebuild of a stored set with a tombstone next to a live lock of a split/EC object was observed")
 	}
 	if r.Counter("gc_checks_removed_objects") == 0 || r.Counter("comparisons_with_reference") == 0 {
 		r.Inconclusive("no removed object / no constrained comparison was observed")
